@@ -108,7 +108,7 @@ class Pool:
 
 
 def scalar(rng):
-    c = rng.integers(8)
+    c = rng.integers(10)
     v = float(np.exp(rng.uniform(math.log(0.1), math.log(8))))
     if c == 0:
         return int(rng.integers(2, 5))
@@ -120,6 +120,10 @@ def scalar(rng):
         return torch.tensor(v)
     if c == 4:
         return torch.tensor(-v)
+    if c == 8:
+        return torch.tensor([v])  # a one-element tensor that is not 0-dim broadcasts like any tensor
+    if c == 9:
+        return torch.tensor([[-v]])
     return v
 
 
@@ -299,7 +303,13 @@ def templates():
 
     @reg("copy_")
     def _(p, a):
-        c = p.rng.integers(3)
+        c = p.rng.integers(4)
+        if c == 3 and hasattr(a, "qtype") and type(a).__name__ == "QBytesTensor" and a.axis is None:
+            # copy a differently scaled tensor of the same qtype into a clone: the clone's source must not change
+            dest = a.clone()
+            src = p.oq.quantize_activation(p.randn(tuple(a.shape), mag=float(a._scale.abs()) * 300), a.qtype,
+                                           (a._scale.detach() * 3.0).clone())
+            return lambda: dest.copy_(src)
         if c == 0 and hasattr(a, "qtype"):
             dest = p.sibling(a, same_scale=True)
             return lambda: dest.copy_(a)
@@ -307,7 +317,7 @@ def templates():
             dest = p.randn(tuple(a.shape))
             return lambda: dest.copy_(a)
         src = p.randn(tuple(a.shape))
-        dest = a.clone() if hasattr(a, "qtype") else a
+        dest = a.clone()
         return lambda: dest.copy_(src)
 
     # ---- rescaling
